@@ -1,5 +1,5 @@
 (* C20 correspondence: observations of the real pkg/nathole code against Model/NatHole (+ NatHoleCtl). *)
-From FRP Require Export Corr.Common Model.NatHoleToday.
+From FRP Require Export Corr.Common Model.NatHoleToday Model.NatHoleCtl.
 Open Scope Z_scope.
 
 Definition D := nh_today.
@@ -26,10 +26,6 @@ Inductive orec := OR (mode index : Z) (c v : obeh).
 
 Definition cerr_code (e : nh_cerr) : Z := match e with CeNotEnough => 1 | CeSplit => 2 | CeAtoi => 3 | CePort => 4 end.
 
-Inductive case :=
-| CAn (ops : list nh_aop) (obs : list orec)
-| CCl (addrs locals : list bytes) (res nat behav diff : Z) (reg pub : bool)
-| CRange (addrs : list bytes) (diff maxn : Z) (obs : list (Z * Z)).
 
 Fixpoint zz_list_eqb (a b : list (Z * Z)) : bool :=
   match a, b with
@@ -37,6 +33,47 @@ Fixpoint zz_list_eqb (a b : list (Z * Z)) : bool :=
   | (x, y) :: a', (x', y') :: b' => (x =? x') && (y =? y') && zz_list_eqb a' b'
   | _, _ => false
   end.
+
+(* ---- controller scenarios ---- *)
+(* observed NatHoleResp: tid, sid (index of the session, -1 when empty), protocol, candidates, assisted, mode, role, ttl,
+   send delay, read timeout, ranges, send random, listen random, error class *)
+Inductive oresp := RS (tid : bytes) (sid : Z) (proto : bytes) (cands assisted : list bytes)
+                      (mode role ttl delay rto : Z) (ranges : list (Z * Z)) (srand lrand err : Z).
+
+Definition err_code (e : nh_err) : Z :=
+  match e with
+  | NeNone => 0 | NeClassifyClient c => 10 + cerr_code c | NeClassifyVisitor c => 20 + cerr_code c
+  | NeNoProxy => 3 | NeAuth => 4 | NeNotAllowed => 5
+  end.
+
+Fixpoint bl_eqb (a b : list bytes) : bool :=
+  match a, b with
+  | [], [] => true
+  | x :: a', y :: b' => bytes_eqb x y && bl_eqb a' b'
+  | _, _ => false
+  end.
+
+Definition oresp_eqb (o : oresp) (r : nh_resp) : bool :=
+  let 'RS tid sid proto cands assisted mode role ttl delay rto ranges srand lrand err := o in
+  bytes_eqb tid (r_tid r) &&
+  bytes_eqb (if sid <? 0 then [] else ctl_sid_bytes sid) (r_sid r) &&
+  bytes_eqb proto (r_protocol r) && bl_eqb cands (r_cands r) && bl_eqb assisted (r_assisted r) &&
+  (mode =? r_mode r) && (role =? role_code (r_role r)) && (ttl =? r_ttl r) && (delay =? r_delay r) &&
+  (rto =? r_read_timeout r) && zz_list_eqb ranges (r_ranges r) && (srand =? r_send_random r) &&
+  (lrand =? r_listen_random r) && (err =? err_code (r_err r)).
+
+(* a step of the scenario: an event of the model, or an observation point:
+   the session table (sorted session indices) and the messages each stub transporter has received so far *)
+Inductive cev :=
+| E (e : ctl_ev)
+| O (table : list Z) (inboxes : list (Z * list oresp)).
+
+Inductive case :=
+| CAn (ops : list nh_aop) (obs : list orec)
+| CCl (addrs locals : list bytes) (res nat behav diff : Z) (reg pub : bool)
+| CRange (addrs : list bytes) (diff maxn : Z) (obs : list (Z * Z))
+| CCtl (auth : list (bytes * Z * bytes)) (evs : list cev).
+
 
 (* the property itself on one observed recommendation: roles complementary *)
 Definition orec_holds (o : orec) : bool :=
@@ -54,6 +91,55 @@ Fixpoint orecs_match (obs : list orec) (ml : list nh_reco) : Z :=
       then orecs_match obs2 ml2 else 3
   | _, _ => 2
   end.
+
+
+Fixpoint auth_of (tbl : list (bytes * Z * bytes)) (sk : bytes) (ts : Z) : bytes :=
+  match tbl with
+  | [] => []
+  | (k, t, v) :: r => if bytes_eqb k sk && (t =? ts) then v else auth_of r sk ts
+  end.
+
+Definition out_for (tr : Z) (o : ctl_out) : list nh_resp :=
+  match o with
+  | OutReply tr' r | OutResp _ _ tr' r => if tr' =? tr then [r] else []
+  | _ => []
+  end.
+
+Fixpoint oresps_eqb (a : list oresp) (b : list nh_resp) : bool :=
+  match a, b with
+  | [], [] => true
+  | x :: a', y :: b' => oresp_eqb x y && oresps_eqb a' b'
+  | _, _ => false
+  end.
+
+Fixpoint zl_eqb (a b : list Z) : bool :=
+  match a, b with [], [] => true | x :: a', y :: b' => (x =? y) && zl_eqb a' b' | _, _ => false end.
+
+(* 0 agree | 30 an observed event is not enabled in the model | 31 session table differs | 32 an inbox differs
+   | 33 messages for a transporter the observation does not list *)
+Fixpoint ctl_check (auth : bytes -> Z -> bytes) (st : ctl_state) (outs : list ctl_out) (evs : list cev) : Z :=
+  match evs with
+  | [] => 0
+  | E e :: r =>
+      match ctl_step D auth st e with
+      | Some (st', o) => ctl_check auth st' (outs ++ o) r
+      | None => 30
+      end
+  | O table inboxes :: r =>
+      if negb (zl_eqb table (ctl_table st)) then 31
+      else if negb (forallb (fun bx : Z * list oresp => oresps_eqb (snd bx) (flat_map (out_for (fst bx)) outs)) inboxes) then 32
+      else if negb (forallb (fun o => match o with
+                                      | OutReply tr _ | OutResp _ _ tr _ => existsb (fun bx : Z * list oresp => fst bx =? tr) inboxes
+                                      | _ => true end) outs) then 33
+      else ctl_check auth st outs r
+  end.
+
+(* the property on OBSERVED responses: candidate ranges well formed, instruction => role present *)
+Definition oresp_holds (o : oresp) : bool :=
+  let 'RS _ sid _ cands _ _ role _ _ _ ranges _ _ err := o in
+  range_holds ranges && (if err =? 0 then true else (role =? 0) && (sid <? 0) && match cands with [] => true | _ => false end).
+Definition cev_holds (c : cev) : bool :=
+  match c with O _ inboxes => forallb (fun bx : Z * list oresp => forallb oresp_holds (snd bx)) inboxes | E _ => true end.
 
 (* 0 agree | 1 model panics | 2 number of outputs differs | 3 an output differs | 10 classify result class differs
    11 classified feature differs | 20 range differs | 5x the property fails on the OBSERVED values *)
@@ -75,6 +161,8 @@ Definition check_case (c : case) : Z :=
       end
   | CRange addrs diff maxn obs =>
       if zz_list_eqb obs (nh_range_ports addrs diff maxn) then 0 else 20
+  | CCtl auth evs =>
+      if negb (forallb cev_holds evs) then 51 else ctl_check (auth_of auth) ctl_init [] evs
   end.
 
 (* counters for the evidence: which model branches the cases reached *)
@@ -85,3 +173,14 @@ Definition cl_regular (c : case) : bool := match c with CCl _ _ 0 _ _ _ true _ =
 Definition cl_public (c : case) : bool := match c with CCl _ _ 0 _ _ _ _ true => true | _ => false end.
 Definition an_modes (c : case) : list Z := match c with CAn _ obs => map (fun o => let 'OR m _ _ _ := o in m) obs | _ => [] end.
 Definition count_mode (m : Z) (l : list case) : Z := count_if (Z.eqb m) (flat_map an_modes l).
+
+(* controller counters *)
+Definition ctl_evs (c : case) : list ctl_ev := match c with CCtl _ evs => flat_map (fun e => match e with E x => [x] | _ => [] end) evs | _ => [] end.
+Definition is_ctl (c : case) : bool := match c with CCtl _ _ => true | _ => false end.
+Definition ev_kind (k : Z) (e : ctl_ev) : bool :=
+  match e, k with
+  | EvVisitor _ _ _, 0 | EvDeliver _, 1 | EvClient _ _, 2 | EvWake _, 3 | EvTimeout _, 4 | EvAnalyse _, 5
+  | EvSendV _, 6 | EvSendC _, 7 | EvSleepDone _, 8 | EvReport _ _, 9 | EvListen _ _ _, 10 | EvClose _, 11 => true
+  | _, _ => false
+  end.
+Definition count_ev (k : Z) (l : list case) : Z := count_if (ev_kind k) (flat_map ctl_evs l).
